@@ -239,6 +239,9 @@ def clustering(
     # distance matrix and dendrogram do not change from run to run
     platforms = sorted(extract_platforms(setmap))
 
+    if len(platforms) == 0:
+        log.error("clustering is not supported without platforms.")
+        return None
     if len(platforms) == 1:
         log.error("clustering is not supported for a single platform.")
         return None
